@@ -349,7 +349,7 @@ fn part() -> HistPart<Mon, impl Fn(&Setup) -> Mon + Sync> {
     p.change_addr = false;
     let mut sp = SetupProfile::default();
     sp.codecs = vec![CodecKind::Fix, CodecKind::Var];
-    HistPart { name: "histories", sp, p, cases_quick: 40_000, cases_thorough: 3_000_000, mk: |s: &Setup| Mon::new(s.codec) }
+    HistPart { name: "histories", sp, p, cases_quick: 120_000, cases_thorough: 3_000_000, mk: |s: &Setup| Mon::new(s.codec) }
 }
 
 pub fn run(ctx: &Ctx, report: &mut Report) -> EvidenceMeta {
